@@ -41,6 +41,36 @@ def matches(clause, prefixes):
     return any(clause.startswith(p) for p in prefixes)
 
 
+def apalache_policy(sd, tier):
+    """Inductive-invariant check of the deletion-policy core (spec/Policy.tla) with Apalache:
+    Init => IndInv, IndInv /\\ Next => IndInv', IndInv => C11_Retained /\\ C11_AtLeastN."""
+    import concurrent.futures as cf
+    wd = os.path.join(sd, 'apalache')
+    os.makedirs(wd, exist_ok=True)
+    for f in ('Policy.tla', 'Policy_inst.tla'):
+        shutil.copy(os.path.join(SPEC, f), wd)
+    consts = ['ConstInit'] if tier == 'quick' else ['ConstInit', 'ConstInit1', 'ConstInit3']
+    obligations = [('init', ['--init=Init', '--inv=IndInv', '--length=0']),
+                   ('step', ['--init=IndInit', '--inv=IndInv', '--length=1']),
+                   ('goal', ['--init=IndInit', '--inv=GoalInv', '--length=0'])]
+
+    def one(job):
+        c, (name, args) = job
+        od = os.path.join(wd, '%s-%s' % (c, name))
+        os.makedirs(od, exist_ok=True)
+        for f in ('Policy.tla', 'Policy_inst.tla'):
+            shutil.copy(os.path.join(wd, f), od)
+        p = subprocess.run(['timeout', '900', 'apalache-mc', 'check', '--cinit=' + c, '--out-dir=' + os.path.join(od, 'out')] + args + ['Policy_inst.tla'],
+                           cwd=od, stdout=subprocess.PIPE, stderr=subprocess.STDOUT, text=True)
+        return dict(constants=c, obligation=name, ok='EXITCODE: OK' in p.stdout, tail=p.stdout[-400:])
+    with cf.ThreadPoolExecutor(max_workers=3) as ex:
+        res = list(ex.map(one, [(c, o) for c in consts for o in obligations]))
+    bad = [r for r in res if not r['ok']]
+    if bad:
+        raise Inconclusive('Apalache did not discharge %s/%s of Policy.tla: %s' % (bad[0]['constants'], bad[0]['obligation'], bad[0]['tail']))
+    return [dict(constants=r['constants'], obligation=r['obligation'], ok=True) for r in res]
+
+
 def core_check(prop, tier, seed, sd, t0):
     spec = CORE[prop]
     mcs = spec['mc_q'] if tier == 'quick' else spec['mc_t']
@@ -53,6 +83,10 @@ def core_check(prop, tier, seed, sd, t0):
         r = vlib.model_check(sd, name, 'MC.tla', name + '.cfg', timeout)
         log('model checked %s: %d distinct states, %d transitions, %.0fs' % (name, r['states'], r['transitions'], r['wall_s']))
         mcres.append(r)
+    apa = None
+    if prop == 'C11':
+        apa = apalache_policy(sd, tier)
+        log('Apalache discharged %d inductive-invariant obligations of Policy.tla' % len(apa))
     # (2) the code
     binp = vlib.build_harness(sd)
     total_runs = total_events = total_images = 0
@@ -142,6 +176,11 @@ def core_check(prop, tier, seed, sd, t0):
                model_divergence_rule='every logged batch / merge / persist-swap introduction is compared with what BlugeCore\'s pure transition functions '
                                      '(AfterBatch, MergedRoot incl. the skipped flag, SwapRoot) compute from the previous logged root, the optimistic root of the batch, '
                                      'the merge task and the grabbed snapshot; 0 means the model-checked transition functions predicted every real root exactly')
+    if apa is not None:
+        cov['apalache_obligations'] = apa
+        cov['apalache_note'] = ('Policy.tla: IndInv is an inductive invariant of the keep-N policy + the persister\'s persist-before-commit obligation and implies '
+                                'C11_Retained and C11_AtLeastN for any number of commits, clean-ups and failed removals (unbounded in the number of steps; epochs and '
+                                'segment ids range over small finite domains)')
     vlib.write_evidence(prop, tier, seed, 'model_checking', cov, ASSUME_CORE, time.time() - t0, len(viols))
     log('%s %s: %d model states, %d executions (%d events, %d crash images) validated, %d violations, %.0fs'
         % (prop, tier, states, total_runs, total_events, total_images, len(viols), time.time() - t0))
@@ -283,6 +322,18 @@ def replay(path):
     """Re-validates the stored trace with TLC and re-executes the stored schedule on the current tree."""
     meta = json.load(open(os.path.join(path, 'meta.json')))
     sd = vlib.scratch_dir('replay')
+    kind = meta.get('kind')
+    if kind in ('probe', 'c13', 'c19'):
+        # the stored lines (input and real result) are judged again by the specification
+        try:
+            module, cfg, extra = {'c13': ('DirFSTrace.tla', 'DirFSTrace.cfg', []), 'c19': ('MergePlanTrace.tla', 'MergePlanTrace.cfg', ['MergePlan.tla'])}.get(
+                kind, (meta.get('module'), meta.get('cfg'), meta.get('extra', [])))
+            res = vextra.run_trace_spec(sd, 'replay', module, cfg, os.path.join(path, 'trace.ndjson'), extra_modules=tuple(extra))
+            log('stored %s lines: %d, clauses failing: %s' % (kind, res['events'], sorted(set(v[0] for v in res['viols']))))
+            log('to re-execute on the current tree run: bin/vcheck %s quick' % meta.get('property', '<id>'))
+            return 1 if res['viols'] else 0
+        finally:
+            shutil.rmtree(sd, ignore_errors=True)
     try:
         tf = os.path.join(path, 'trace.ndjson')
         rc = 0
